@@ -491,6 +491,31 @@ Definition load_light (numtab : list N) (e : et) : outcome V :=
     end
   end.
 
+(* the five values of a camera as the file gives them, and what the constructor keeps *)
+Record cam := mkCam { c_x : option N; c_y : option N; c_ar : option N; c_near : N; c_far : N }.
+
+(* PerspectiveCamera.load / OrthographicCamera.load after the elements are parsed: the aspect ratio
+   is dropped when all three are given; _checkValidParams rejects the remaining invalid combinations *)
+Definition camera_ctor (c : cam) : outcome cam :=
+  let ar' := match c_x c, c_y c, c_ar c with Some _, Some _, Some _ => None | _, _, _ => c_ar c end in
+  match c_x c, c_y c, ar' with
+  | None, None, _ | Some _, Some _, Some _ => Raise DaeMalformed
+  | _, _, _ => Ok (mkCam (c_x c) (c_y c) ar' (c_near c) (c_far c))
+  end.
+
+Definition camera_values (numtab : list N) (pn : et) (xa ya : atom) : outcome cam :=
+  (* float(None.text) is an AttributeError, float(None) a TypeError (caught: DaeMalformed) *)
+  let req t := match efind t pn with
+               | None => Raise PyAttributeError
+               | Some n => match etext n with None => Raise DaeMalformed | t' => float_of_text numtab t' end
+               end in
+  let opt t := match efind t pn with
+               | None => Ok None
+               | Some n => match etext n with None => Raise DaeMalformed | t' => omap Some (float_of_text numtab t') end
+               end in
+  obind (opt xa) (fun x => obind (opt ya) (fun y => obind (opt a_aspect_ratio) (fun ar =>
+  obind (req a_znear) (fun zn => obind (req a_zfar) (fun zf => Ok (mkCam x y ar zn zf)))))).
+
 Definition load_camera (numtab : list N) (e : et) : outcome V :=
   match efind_path [a_optics; a_technique_common] e with
   | None => Raise DaeIncomplete
@@ -506,23 +531,10 @@ Definition load_camera (numtab : list N) (e : et) : outcome V :=
         match efind_path [a_optics; a_technique_common; k] e with
         | None => Raise DaeIncomplete
         | Some pn =>
-          (* float(None.text) is an AttributeError, float(None) a TypeError (caught: DaeMalformed) *)
-          let req t := match efind t pn with
-                       | None => Raise PyAttributeError
-                       | Some n => match etext n with None => Raise DaeMalformed | t' => float_of_text numtab t' end
-                       end in
-          let opt t := match efind t pn with
-                       | None => Ok None
-                       | Some n => match etext n with None => Raise DaeMalformed | t' => omap Some (float_of_text numtab t') end
-                       end in
-          obind (opt xa) (fun x => obind (opt ya) (fun y => obind (opt a_aspect_ratio) (fun ar =>
-          obind (req a_znear) (fun zn => obind (req a_zfar) (fun zf =>
-          let ar' := match x, y, ar with Some _, Some _, Some _ => None | _, _, _ => ar end in
-          match x, y, ar' with
-          | None, None, _ | Some _, Some _, Some _ => Raise DaeMalformed
-          | _, _, _ =>
-            Ok (Vl [Vn (euid e); Vaval (or_empty (eattr a_id e)); Vn k; Vopt Vn x; Vopt Vn y; Vopt Vn ar'; Vn zn; Vn zf])
-          end)))))
+          obind (camera_values numtab pn xa ya) (fun c0 =>
+          obind (camera_ctor c0) (fun c =>
+          Ok (Vl [Vn (euid e); Vaval (or_empty (eattr a_id e)); Vn k; Vopt Vn (c_x c); Vopt Vn (c_y c); Vopt Vn (c_ar c);
+                  Vn (c_near c); Vn (c_far c)])))
         end
       end
     end
